@@ -183,47 +183,73 @@ theorem oracleHeap_spec (ch : Nat → Nat) : HeapSpec (oracleHeap ch) (fun h => 
       cases hy
   size := fun _ => rfl
 
+/-- `HeapSpec` relative to a representation invariant `Inv` (established by `empty`, preserved by `push` and
+`popDue`): what an implementation whose state space contains non-heaps — the array of the literal `BinaryHeap` port —
+can meet. `HeapSpec` is the case `Inv = True`. -/
+structure HeapSpecI {H : Type} (ops : HeapOps H) (toList : H → List Task) (Inv : H → Prop) : Prop where
+  emptyInv : Inv ops.empty
+  pushInv : ∀ x h, Inv h → Inv (ops.push x h)
+  popInv : ∀ now h x r, Inv h → ops.popDue now h = some (x, r) → Inv r
+  empty : toList ops.empty = []
+  push : ∀ x h, Inv h → (toList (ops.push x h)).Perm (x :: toList h)
+  popSome : ∀ now h x r, Inv h → ops.popDue now h = some (x, r) → x.when ≤ now ∧ (toList h).Perm (x :: toList r)
+  popNone : ∀ now h, Inv h → ops.popDue now h = none → ∀ y ∈ toList h, now < y.when
+  size : ∀ h, Inv h → ops.size h = (toList h).length
+
+theorem HeapSpec.toI {H : Type} {ops : HeapOps H} {toList : H → List Task} (hs : HeapSpec ops toList) :
+    HeapSpecI ops toList (fun _ => True) where
+  emptyInv := trivial
+  pushInv := fun _ _ _ => trivial
+  popInv := fun _ _ _ _ _ _ => trivial
+  empty := hs.empty
+  push := fun x h _ => hs.push x h
+  popSome := fun now h x r _ e => hs.popSome now h x r e
+  popNone := fun now h _ e => hs.popNone now h e
+  size := fun h _ => hs.size h
+
 section generic
-variable {H : Type} {ops : HeapOps H} {toList : H → List Task} (hs : HeapSpec ops toList)
+variable {H : Type} {ops : HeapOps H} {toList : H → List Task} {Inv : H → Prop} (hs : HeapSpecI ops toList Inv)
 include hs
 
-theorem pushAllH_spec (cur : Nat) : ∀ (xs : List Task) (h : H), (∀ x ∈ xs, cur < x.when) →
-    ∃ h', pushAllH ops cur xs h = some h' ∧ (toList h').Perm (toList h ++ xs)
-  | [], h, _ => ⟨h, rfl, by simp⟩
-  | x :: xs, h, hx => by
+theorem pushAllH_spec (cur : Nat) : ∀ (xs : List Task) (h : H), Inv h → (∀ x ∈ xs, cur < x.when) →
+    ∃ h', pushAllH ops cur xs h = some h' ∧ (toList h').Perm (toList h ++ xs) ∧ Inv h'
+  | [], h, hi, _ => ⟨h, rfl, by simp, hi⟩
+  | x :: xs, h, hi, hx => by
     have h1 : ¬ x.when ≤ cur := by have := hx x (by simp); omega
-    obtain ⟨h', e, p⟩ := pushAllH_spec cur xs (ops.push x h) (fun y hy => hx y (List.mem_cons_of_mem _ hy))
-    refine ⟨h', by simp [pushAllH, h1, e], p.trans ?_⟩
-    refine ((hs.push x h).append_right xs).trans ?_
+    obtain ⟨h', e, p, hi'⟩ := pushAllH_spec cur xs (ops.push x h) (hs.pushInv x h hi)
+      (fun y hy => hx y (List.mem_cons_of_mem _ hy))
+    refine ⟨h', by simp [pushAllH, h1, e], p.trans ?_, hi'⟩
+    refine ((hs.push x h hi).append_right xs).trans ?_
     simp only [List.cons_append]
     exact (List.perm_middle).symm
 
-theorem drainDueH_spec (now : Nat) : ∀ (n : Nat) (h : H), (toList h).length ≤ n →
+theorem drainDueH_spec (now : Nat) : ∀ (n : Nat) (h : H), Inv h → (toList h).length ≤ n →
     (drainDueH ops now n h).1.Perm ((toList h).filter (fun x => decide (x.when ≤ now))) ∧
-    (toList (drainDueH ops now n h).2).Perm ((toList h).filter (fun x => decide (now < x.when))) := by
+    (toList (drainDueH ops now n h).2).Perm ((toList h).filter (fun x => decide (now < x.when))) ∧
+    Inv (drainDueH ops now n h).2 := by
   intro n
   induction n with
   | zero =>
-    intro h hl
+    intro h hi hl
     have : toList h = [] := List.length_eq_zero_iff.1 (by omega)
-    simp [drainDueH, this]
+    simp [drainDueH, this, hi]
   | succ n ih =>
-    intro h hl
+    intro h hi hl
     unfold drainDueH
     split
     · rename_i e
-      have hall := hs.popNone now h e
+      have hall := hs.popNone now h hi e
       have f1 : (toList h).filter (fun x => decide (x.when ≤ now)) = [] := by
         rw [List.filter_eq_nil_iff]; intro y hy; have := hall y hy; simp only [decide_eq_true_eq]; omega
       have f2 : (toList h).filter (fun x => decide (now < x.when)) = toList h := by
         rw [List.filter_eq_self]; intro y hy; have := hall y hy; simp only [decide_eq_true_eq]; omega
-      simp [f1, f2]
+      simp [f1, f2, hi]
     · rename_i x r e
-      obtain ⟨hdue, hperm⟩ := hs.popSome now h x r e
+      obtain ⟨hdue, hperm⟩ := hs.popSome now h x r hi e
       have hlen : (toList r).length + 1 = (toList h).length := by
         have := hperm.length_eq; simp at this; omega
-      obtain ⟨i1, i2⟩ := ih r (by omega)
-      refine ⟨?_, ?_⟩
+      obtain ⟨i1, i2, i3⟩ := ih r (hs.popInv now h x r hi e) (by omega)
+      refine ⟨?_, ?_, i3⟩
       · have h1 := hperm.filter (fun x => decide (x.when ≤ now))
         have h2 : (x :: toList r).filter (fun x => decide (x.when ≤ now))
             = x :: (toList r).filter (fun x => decide (x.when ≤ now)) := by simp [hdue]
@@ -253,24 +279,24 @@ theorem res_filter (m : Mem) (p : Nat → Bool) (l : List Task) :
   rfl
 
 section mem
-variable {σ H : Type} {ops : HeapOps H} {toList : H → List Task} (hs : HeapSpec ops toList)
+variable {σ H : Type} {ops : HeapOps H} {toList : H → List Task} {Inv : H → Prop} (hs : HeapSpecI ops toList Inv)
   {env : Env σ} (hf : env.Future) {slot : Nat → Nat} (hc : env.SlotConsistent slot) (G : Nat)
 include hs hf hc
 
 theorem M.execAll_spec (now : Nat) : ∀ (xs : List Task) (h : H) (u : σ) (m : Mem),
-    (∀ x ∈ xs, Good G slot m x) → (∀ x ∈ toList h, Good G slot m x) →
-    ∃ h' m', M.execAll ops env now G xs h u m =
+    Inv h → (∀ x ∈ xs, Good G slot m x) → (∀ x ∈ toList h, Good G slot m x) →
+    ∃ h' m', Inv h' ∧ M.execAll ops env now G xs h u m =
         some (h', (execSeq env now (xs.map (res m)) u).1, m', xs.map (res m),
               (execSeq env now (xs.map (res m)) u).2) ∧
       MemExt G slot m m' ∧
       ((toList h').map (res m')).Perm ((toList h).map (res m) ++ (execSeq env now (xs.map (res m)) u).2) ∧
       ∀ x ∈ toList h', Good G slot m' x
-  | [], h, u, m, _, gh => ⟨h, m, by simp [M.execAll, execSeq], MemExt.refl _ _ _, by simp [execSeq], gh⟩
-  | x :: xs, h, u, m, gx, gh => by
+  | [], h, u, m, hi, _, gh => ⟨h, m, hi, by simp [M.execAll, execSeq], MemExt.refl _ _ _, by simp [execSeq], gh⟩
+  | x :: xs, h, u, m, hi, gx, gh => by
     obtain ⟨ext, gnew⟩ := allocReqs_ext (G := G) (slot := slot) (env.task (memGet m x.id) now u).2 m (hc.task _ _ _)
     have hres := allocReqs_res (env.task (memGet m x.id) now u).2 G m
     have hfut := allocReqs_future (hf.task (memGet m x.id) now u) G m
-    obtain ⟨h1, e1, p1⟩ := pushAllH_spec hs now _ h hfut
+    obtain ⟨h1, e1, p1, hi1⟩ := pushAllH_spec hs now _ h hi hfut
     have gxs : ∀ y ∈ xs, Good G slot (allocReqs G (env.task (memGet m x.id) now u).2 m).2 y :=
       fun y hy => (ext.good (gx y (List.mem_cons_of_mem _ hy))).1
     have gh1 : ∀ y ∈ toList h1, Good G slot (allocReqs G (env.task (memGet m x.id) now u).2 m).2 y := by
@@ -278,11 +304,11 @@ theorem M.execAll_spec (now : Nat) : ∀ (xs : List Task) (h : H) (u : σ) (m : 
       rcases List.mem_append.1 (p1.mem_iff.1 hy) with hy | hy
       · exact (ext.good (gh y hy)).1
       · exact gnew y hy
-    obtain ⟨h', m', e2, ext2, p2, g2⟩ := M.execAll_spec now xs h1 (env.task (memGet m x.id) now u).1 _ gxs gh1
+    obtain ⟨h', m', hi', e2, ext2, p2, g2⟩ := M.execAll_spec now xs h1 (env.task (memGet m x.id) now u).1 _ hi1 gxs gh1
     have hmap : xs.map (res (allocReqs G (env.task (memGet m x.id) now u).2 m).2) = xs.map (res m) :=
       List.map_congr_left (fun y hy => (ext.good (gx y (List.mem_cons_of_mem _ hy))).2)
     rw [hmap] at e2 p2
-    refine ⟨h', m', ?_, ext.trans ext2, ?_, g2⟩
+    refine ⟨h', m', hi', ?_, ext.trans ext2, ?_, g2⟩
     · simp only [M.execAll, e1, e2, List.map_cons, execSeq, res]
     · refine p2.trans ?_
       simp only [List.map_cons, execSeq, res]
@@ -296,16 +322,19 @@ theorem M.execAll_spec (now : Nat) : ∀ (xs : List Task) (h : H) (u : σ) (m : 
 /-- **Invariant of the WASM side with closure memory** at the start of sample `t` (slot-consistent programs):
 what the pending tasks *denote* is exactly the issued-but-not-yet-due calls, and every pending record in the
 per-sample region holds its slot's function. -/
-structure MInv (toList : H → List Task) (G : Nat) (slot : Nat → Nat) (t : Nat) (issued : List Task) (st : MSt σ H) : Prop where
+structure MInv (toList : H → List Task) (Inv : H → Prop) (G : Nat) (slot : Nat → Nat) (t : Nat) (issued : List Task)
+    (st : MSt σ H) : Prop where
+  hinv : Inv st.heap
   cur : st.currentTime = t - 1
   ptr : st.allocPtr = G
   pending : ((toList st.heap).map (res st.mem)).Perm (issued.filter (fun x => decide (t ≤ x.when)))
   good : ∀ x ∈ toList st.heap, Good G slot st.mem x
 
-theorem M.tick_step (t : Nat) (issued : List Task) (st : MSt σ H) (inv : MInv toList G slot t issued st) :
+theorem M.tick_step (t : Nat) (issued : List Task) (st : MSt σ H) (inv : MInv toList Inv G slot t issued st) :
     ∃ st' r, M.tick ops env t st = some (st', r) ∧ StepOk env t issued st.user r st'.user ∧
-      MInv toList G slot (t + 1) (issued ++ r.reqs) st' := by
-  obtain ⟨d1, d2⟩ := drainDueH_spec hs t (ops.size st.heap) st.heap (by rw [hs.size]; exact Nat.le_refl _)
+      MInv toList Inv G slot (t + 1) (issued ++ r.reqs) st' := by
+  obtain ⟨d1, d2, d3⟩ := drainDueH_spec hs t (ops.size st.heap) st.heap inv.hinv
+    (by rw [hs.size _ inv.hinv]; exact Nat.le_refl _)
   have etick : ∀ h' u m' ex rq, M.execAll ops env t st.allocPtr (drainDueH ops t (ops.size st.heap) st.heap).1
         (drainDueH ops t (ops.size st.heap) st.heap).2 st.user st.mem = some (h', u, m', ex, rq) →
       ∀ h'', pushAllH ops t (allocReqs st.allocPtr (env.dsp t u).2 m').1 h' = some h'' →
@@ -315,18 +344,18 @@ theorem M.tick_step (t : Nat) (issued : List Task) (st : MSt σ H) (inv : MInv t
          { execd := ex, reqs := rq ++ (env.dsp t u).2 }) := by
     intro h' u m' ex rq e h'' e2
     simp only [M.tick, e, e2]
-  generalize drainDueH ops t (ops.size st.heap) st.heap = d at d1 d2 etick
+  generalize drainDueH ops t (ops.size st.heap) st.heap = d at d1 d2 d3 etick
   rw [inv.ptr] at etick
   have gd1 : ∀ x ∈ d.1, Good G slot st.mem x :=
     fun x hx => inv.good x (List.mem_filter.1 (d1.mem_iff.1 hx)).1
   have gd2 : ∀ x ∈ toList d.2, Good G slot st.mem x :=
     fun x hx => inv.good x (List.mem_filter.1 (d2.mem_iff.1 hx)).1
-  obtain ⟨h', m', e, ext, hperm, gh'⟩ := M.execAll_spec hs hf hc G t d.1 d.2 st.user st.mem gd1 gd2
+  obtain ⟨h', m', hi', e, ext, hperm, gh'⟩ := M.execAll_spec hs hf hc G t d.1 d.2 st.user st.mem d3 gd1 gd2
   obtain ⟨ext2, gnew⟩ := allocReqs_ext (G := G) (slot := slot)
     (env.dsp t (execSeq env t (d.1.map (res st.mem)) st.user).1).2 m' (hc.dsp _ _)
   have hres := allocReqs_res (env.dsp t (execSeq env t (d.1.map (res st.mem)) st.user).1).2 G m'
   have hfut := allocReqs_future (hf.dsp t (execSeq env t (d.1.map (res st.mem)) st.user).1) G m'
-  obtain ⟨h'', e2, p2⟩ := pushAllH_spec hs t _ h' hfut
+  obtain ⟨h'', e2, p2, hi''⟩ := pushAllH_spec hs t _ h' hi' hfut
   have ok : StepOk env t issued st.user
       { execd := d.1.map (res st.mem),
         reqs := (execSeq env t (d.1.map (res st.mem)) st.user).2 ++
@@ -339,7 +368,7 @@ theorem M.tick_step (t : Nat) (issued : List Task) (st : MSt σ H) (inv : MInv t
   have hfutr : ∀ x ∈ (execSeq env t (d.1.map (res st.mem)) st.user).2 ++
       (env.dsp t (execSeq env t (d.1.map (res st.mem)) st.user).1).2, t < x.when := ok.future hf
   refine ⟨_, _, etick _ _ _ _ _ e _ e2, ok, ?_⟩
-  refine ⟨by simp, by simp, ?_, ?_⟩
+  refine ⟨hi'', by simp, by simp, ?_, ?_⟩
   · simp only [List.filter_append]
     rw [← List.filter_append, filter_future_self hfutr]
     refine (p2.map _).trans ?_
@@ -361,11 +390,11 @@ theorem M.run_spec (n : Nat) (s0 : σ) :
       (M.run ops env n s0).greqs = (env.global s0).2 ∧
       Ideal env 0 (env.global s0).2 (env.global s0).1 (M.run ops env n s0).ticks := by
   have hfut := allocReqs_future (hf.global s0) 0 []
-  obtain ⟨h, e, p⟩ := pushAllH_spec hs 0 _ ops.empty hfut
-  have inv0 : MInv toList (env.global s0).2.length slot 0 (env.global s0).2
+  obtain ⟨h, e, p, hi⟩ := pushAllH_spec hs 0 _ ops.empty hs.emptyInv hfut
+  have inv0 : MInv toList Inv (env.global s0).2.length slot 0 (env.global s0).2
       { currentTime := 0, heap := h, user := (env.global s0).1, mem := (allocReqs 0 (env.global s0).2 []).2,
         allocPtr := (env.global s0).2.length } := by
-    refine ⟨rfl, rfl, ?_, ?_⟩
+    refine ⟨hi, rfl, rfl, ?_, ?_⟩
     · have : (env.global s0).2.filter (fun x => decide (0 ≤ x.when)) = (env.global s0).2 := by
         rw [List.filter_eq_self]; intro x _; simp
       rw [this]
@@ -377,7 +406,7 @@ theorem M.run_spec (n : Nat) (s0 : σ) :
       simp only at hge
       omega
   obtain ⟨st', e2, l2, idl, _⟩ := runFrom_spec (env := env) (tick := M.tick ops env) (user := fun st => st.user)
-    (Inv := MInv toList (env.global s0).2.length slot)
+    (Inv := MInv toList Inv (env.global s0).2.length slot)
     (fun t issued st inv => M.tick_step hs hf hc _ t issued st inv) n 0 (env.global s0).2 _ inv0
   refine ⟨st', ?_, ?_, ?_, ?_⟩ <;> simp only [M.run, e] <;> assumption
 
